@@ -12,11 +12,20 @@ def _mk(ids, beh, **kw):
     return c
 
 
-def real_cases(pid):
+def real_cases(pid, tier="thorough"):
     ids6 = [1, 2, 3, 4, 5, 6]
+    if tier == "quick":
+        # anchors (about 3 s) for what the simulator assumes about real multiprocessing in its two newest behaviours:
+        # an item that does not unpickle makes the parent's Queue.get raise and leaves the worker in place; a worker
+        # SIGKILLed while it sleeps between two replays costs one "died" verdict and nothing else
+        return [_mk(ids6, {1: "unloadable", 2: "unloadable", 4: "unloadable"}, rate=2, timeout=2),
+                _mk(ids6, {}, rate=2, timeout=2, kill_idle_after=[2, 5, 6])] if pid == "C13" else []
     common = [
         _mk(ids6, {3: "hang", 4: "exit1"}, rate=2, timeout=1),
         _mk([1, 2, 3, 4, 5], {2: "drops"}, rate=5, timeout=1),          # unpicklable result: never arrives
+        # results that pickle in the worker and do not unpickle in the parent (Queue.get raises): failures of their
+        # own recordings, the worker stays and ages
+        _mk(ids6, {1: "unloadable", 2: "unloadable", 4: "unloadable"}, rate=2, timeout=2),
     ]
     if pid == "C08":
         return common + [
@@ -31,6 +40,10 @@ def real_cases(pid):
         _mk(ids6, {2: "hang"}, rate=2, timeout=1, consume=("raise", 4)),
         _mk([1, 2, 3, 4, 5], {5: "hang_deaf"}, rate=2, timeout=1, consume=("close", 5)),
         _mk([1, 2, 3, 4, 5, 6, 7], {3: "exit1", 4: "exit0"}, rate=3, timeout=1, consume=("iter_raises", 6)),
+        # somebody else's SIGKILL hits the idle worker between two replays: before a recycle (after #2), in the middle
+        # of a recycle period (after #5), after the last replay (#6: only the clean-up follows)
+        _mk(ids6, {}, rate=2, timeout=2, kill_idle_after=[2, 5, 6]),
+        _mk([1, 2, 3, 4], {3: "hang"}, rate=3, timeout=1, kill_idle_after=[1, 4], consume=("close", 4)),
     ]
 
 
@@ -41,6 +54,10 @@ def anomalies(case, run):
     n = G.expected_count(case)
     cmps = run["cmps"]
     known = G.f08_sig(case)      # locality failures of a script inside a known-finding region carry its signature
+    # a recording dispatched to a worker that was killed while idle is reported as "died" and never played
+    # (unless the worker was due for recycling anyway: then a fresh one plays it)
+    after_kill = set(k for k in case.get("kill_idle_after", []) if k < len(ids))
+    lost = set(ids[k] for k in after_kill if k < len(cmps) and cmps[k][2] in ("died", "timeout"))
     if run["outcome"] in ("stuck", "abort-exit"):
         out.append(("C13", "run-blocks-forever", "run did not finish: %s after %d comparisons" % (run["outcome"], len(cmps))))
     if [c[0] for c in cmps] != ids[:n]:
@@ -50,7 +67,7 @@ def anomalies(case, run):
         if c[3] is not None and c[3] != c[0]:
             out.append(("C08", "foreign-replay-attached", "comparison labelled r%s carries the replay of r%s" % (c[0], c[3])))
         exp = G.expected_status(b, True, T if not b.startswith("slow") else 10**6)
-        if exp is not None and c[1] != exp:
+        if exp is not None and c[1] != exp and ids[k] not in lost:
             out.append(("C08", known or "wrong-status", "r%s (%s): status %s, expected %s [%s]" % (ids[k], b, c[1], exp, c[2])))
         if k < len(run["walls"]) and run["walls"][k] > T + 3:
             out.append(("C13", "wait-too-long", "comparison of r%s (%s) took %.1f s, timeout %d s" % (ids[k], b, run["walls"][k], T)))
@@ -61,7 +78,7 @@ def anomalies(case, run):
             out.append(("C13", "worker-over-age", "worker process #%d played %d recordings %s, recycle rate %d"
                         % (pid_ord, len(served), served, rate)))
     flat = [i for served in run["served"] for i in served]
-    if sorted(flat) != sorted(ids[:len(cmps)]) and run["outcome"] not in ("stuck",):
+    if sorted(flat) != sorted(i for i in ids[:len(cmps)] if i not in lost) and run["outcome"] not in ("stuck",):
         out.append(("C13", known or "task-not-served-once", "recordings played by the workers %s, compared %s" % (run["served"], ids[:len(cmps)])))
     else:
         where = {}
